@@ -181,6 +181,22 @@ CHECKS["C11"] = (
     "do) and a deliberately coarse name-based graph; the shipped from-code rules are swept on 16 lines per thorough run.",
     "DESIGN.md 3/C11")
 
+CHECKS["C05"] = (
+    "differential testing of name binding: Python symtable / a real CPython import of every project / node probe scripts vs the "
+    "declaration each use is bound to in lian's P1 symbol tables, over Hypothesis-generated scope trees and multi-file projects; "
+    "metamorphic renaming relation on bindings, call graph, call paths and flows",
+    "~660 generated Python scope trees (module, functions, nested functions, classes, methods over three names with every binding and "
+    "read form incl. global / nonlocal, augmented assignment, for / with / except-as targets, imports inside blocks), ~415 multi-file "
+    "Python projects (2-6 files, flat / package / sub-package, every import form incl. relative, aliased, re-exports, function-level), "
+    "~370 JavaScript trees (var / let / const, function declarations and expressions, arrows, blocks) per quick run (thorough ~76000): "
+    "every use must be bound to the declaration (owning scope, name) that symtable / the project resolver (checked against a real CPython "
+    "import of every project) / the JavaScript resolver (every 4th tree cross-checked with node in the thorough tier) gives. Renaming "
+    "half: a consistent renaming of one variable leaves bindings (position -> identity), the P1 call graph, P3 call paths and taint flows "
+    "unchanged. Binding forms with an open finding are signed by root-cause qualifier and kept as replays.",
+    "Python and JavaScript only; lambda, comprehensions, walrus, match captures, decorators, JavaScript classes / destructuring / modules "
+    "are not generated; only P1 bindings are observed directly (P3 through call paths and flows).",
+    "DESIGN.md 3/C05")
+
 NOT_YET = {}
 
 
